@@ -83,7 +83,9 @@ static int ref_len(unsigned int p, unsigned int lim, unsigned long *val, unsigne
     c = in[p++];
     if (c == ':') { *val = v; *next = p; return 0; }
     if (c < '0' || c > '9') return 1;
-    if (v > 200000000UL) R.huge = 1; else v = v * 10 + (unsigned long) (c - '0');
+    /* an absurd length may be refused as resource trouble (exit 111) as soon as it is seen */
+    if (v <= 200000000UL) v = v * 10 + (unsigned long) (c - '0');
+    if (v > 200000000UL) R.huge = 1;
   }
   return 2;
 }
